@@ -312,11 +312,14 @@ func execE2E(desc string) string {
 			out = fmt.Sprintf("hs=fail hsC=%s hsS=%s", sizes(hsC), sizes(hsS))
 			return
 		}
+		// the maximum payload each connection itself reports (the spec's bound: "the connection's
+		// maximum payload"), read before any application write
+		mc, ms := dtlcp.VerifMaxPayloadSizeForWrite(c), dtlcp.VerifMaxPayloadSizeForWrite(s)
 		w := oneWay(c, s, ce, se, szs)  // client -> server, bounded by the CLIENT's PMTU
 		v := oneWay(s, c, se, ce, rszs) // server -> client, bounded by the SERVER's PMTU
 		W := stream(c, s, ce, st)       // Write / Read
 		V := stream(s, c, se, st)
-		out = fmt.Sprintf("hs=ok hsC=%s hsS=%s w=%s v=%s W=%s V=%s", sizes(hsC), sizes(hsS), w, v, W, V)
+		out = fmt.Sprintf("hs=ok hsC=%s hsS=%s mc=%d ms=%d w=%s v=%s W=%s V=%s", sizes(hsC), sizes(hsS), mc, ms, w, v, W, V)
 	})
 	if p != "" {
 		return "panic=" + p
